@@ -3,6 +3,7 @@
 package c16
 
 import (
+	"strings"
 	"context"
 	"encoding/json"
 	"errors"
@@ -113,10 +114,13 @@ func mapFor(id, batches int) *gostatsd.MetricMap {
 	return out
 }
 
-var variants = []string{"graphite/tags", "statsdaemon/tcp", "statsdaemon/udp", "datadog", "influxdb/v2", "newrelic/metrics", "newrelic/infra", "otlp/AsGauge", "otlp/AsHistogram", "cloudwatch", "stdout", "null"}
+var variants = []string{"graphite/tags", "statsdaemon/tcp", "statsdaemon/udp", "datadog", "influxdb/v2", "newrelic/metrics", "newrelic/infra", "otlp/AsGauge", "otlp/AsHistogram", "cloudwatch", "stdout", "null",
+	// otlp with max_request_elapsed_time 0 ("never stop until reaches MaxRetries"): the retry budget alone ends a delivery
+	"otlp/AsGauge#retries"}
 
 func runBackend(t *testing.T, tw *trace.Writer, vname string, c *bcase, idx int, res *vh.Result) {
-	v, ok := bk.ByName(vname)
+	base, opt, _ := strings.Cut(vname, "#")
+	v, ok := bk.ByName(base)
 	if !ok {
 		t.Fatalf("no variant %s", vname)
 	}
@@ -134,6 +138,11 @@ func runBackend(t *testing.T, tw *trace.Writer, vname string, c *bcase, idx int,
 		env.MetricsPerBatch = 3
 		env.MaxRequests = 2
 		env.MaxRequestElapsedTime = 3 * time.Second
+		if opt == "retries" {
+			// two retries with back-offs of at most 0.75 s and 1.125 s and answers that take at most 2 s: within the 8 s per round
+			// of batches the driver allows before it says "expired"
+			env.Set("otlp.max_request_elapsed_time", "0s").Set("otlp.max_retries", 2)
+		}
 		env.HTTP.Respond = func(a bk.Attempt) bk.Outcome {
 			o := p.next()
 			p.note(a.Decoded, o == "ok")
